@@ -48,7 +48,7 @@ def withdraw_unconfirmed(ctx, chk):
     new = new_functions(ctx)
     if not new:
         return 0
-    near = _near(ctx, new)
+    near = _near(ctx, new) | set(getattr(ctx, "inlined_touched", ()))
     by_site = {}
     for k, f in ctx.ix.funcs.items():
         by_site.setdefault((f.file, f.qual), k)
@@ -108,3 +108,20 @@ def withdraw_by_second_pass(ctx, chk, mod, make_ctx):
             chk.error(f.rule, "cannot decide `%s`: it depends on what may be raised inside function(s) this rule was never confirmed against (%s)" % (
                 str(f.key)[:80], ", ".join(sorted(x.split(":")[-1] for x in new)[:3])))
     return n
+
+
+def with_helpers_inlined(ctx, make_ctx):
+    """the context the rules should run on: the given one, or - when new functions are called as whole statements by known functions - one
+    whose source overlay has those calls replaced by the helper bodies (core/inline.py)"""
+    if not new_functions(ctx):
+        return ctx
+    try:
+        from .inline import build_overlay
+        overlay, touched = build_overlay(ctx)
+    except Exception:
+        return make_ctx(None)
+    if not overlay:
+        return make_ctx(None)
+    ctx2 = make_ctx(overlay)
+    ctx2.inlined_touched = touched
+    return ctx2
